@@ -12,6 +12,7 @@ R07.4 (siblings, inlined value-flow summaries) origin of every object: each add_
       add_origin numbers new origins against this logical file's origins; back-filling touches own objects only.
 R07.5 (AST) each IFLR body starts with the OBNAME of the frame / no-format object it was constructed with.
 R07.6 = C09 R09.1 (definitions precede the indirectly formatted records).
+R07.7 = C06 R06.3 for IDENT: the name written is exactly the string the copy numbers were computed from.
 """
 
 from __future__ import annotations
@@ -40,6 +41,21 @@ def run(chk):
     chk.guard(r07_4_origins, chk)
     chk.guard(r07_5_iflr_reference, chk)
     chk.guard(r07_6_order, chk)
+    chk.guard(r07_7_name_written_is_name_compared, chk)
+
+
+def r07_7_name_written_is_name_compared(chk):
+    """Copy numbers are computed by comparing names as the user gave them; the identity is unique in the file only if
+    the IDENT written is that very string - its length byte followed by exactly its characters, nothing stripped, folded
+    or cut (= C06 R06.3)."""
+    from . import c06
+    n0 = len(chk.obs)
+    c06.r06_3_ident_ascii(chk)
+    keep = [o for o in chk.obs[n0:] if o.key.startswith(("ident", "strict-ascii:ident"))]
+    for o in keep:
+        o.rule = "R07.7"
+    chk.obs[n0:] = keep
+    chk.floor("IDENT emitter obligations", len(keep), 3)
 
 
 def copy_number_counts_registered_items(chk, ccn) -> bool:
